@@ -50,17 +50,19 @@ Definition agrees (k : case) : bool :=
   | Crash => (k_code k =? 2)%nat
   end.
 
-Definition in_domain (k : case) : bool :=
-  (1 <=? k_chunk k)%nat && no_err (mk_evs (k_evs k)) && times_ok (mk_cfg k) (mk_evs (k_evs k)).
+(** the theorem's hypothesis (after the fixes in /repo: no guard on the file's contents any more) *)
+Definition in_domain (k : case) : bool := (1 <=? k_chunk k)%nat.
 
 Definition ds_eqb (a b : ds) : bool :=
   all2 (fun x y => Z.eqb (fst x) (fst y) && Z.eqb (snd x) (snd y)) (d_times a) (d_times b)
   && all2 (all2 bytes_eqb) (d_cols a) (d_cols b).
 
-(** the property on the model: loaded => every row of the file, converted as one chunk; never a crash *)
+(** the property on the model: loaded => no read error and every row of the file, converted as one chunk;
+    never a crash *)
 Definition model_prop (k : case) : bool :=
   match run k with
-  | Loaded d => match conv_spec (pfloat_of (k_floats k)) (mk_cfg k) (rows_of (mk_evs (k_evs k))) with
+  | Loaded d => no_err (mk_evs (k_evs k)) &&
+                match conv_spec (pfloat_of (k_floats k)) (mk_cfg k) (rows_of (mk_evs (k_evs k))) with
                 | Some d' => ds_eqb d d'
                 | None => false
                 end
